@@ -122,7 +122,8 @@ def generate(seed, tier):
                           ["pct", mrng.randint(1, 3), mrng.choice((300, 1500, 4000))],
                           ["pct", mrng.randint(1, 3), mrng.choice((300, 1500, 4000))]))
     return {"prop": ID, "seed": seed, "config": cfg.describe(), "storage_kind": storage_kind,
-            "actors": actors, "policy": policy, "schedule": None}
+            "actors": actors, "policy": policy, "schedule": None,
+            "gc_tick": mrng.choice((0, 0, 0.03, 0.1))}
 
 
 def check_history(s, readers):
@@ -217,6 +218,7 @@ def execute(record, trace=False):
     pol = record.get("policy") or ["sticky", 0.9]
     s = SchedSession(record["seed"], cfg=cfg, keep_log=trace, policy=tuple(pol),
                      replay_schedule=record.get("schedule"), storage_kind=record.get("storage_kind", "file"))
+    s.k.gc_tick_p = record.get("gc_tick", 0)
     try:
         try:
             s.setup_index()
